@@ -194,11 +194,13 @@ void ep4_mul_sim_trick(ep4_t r, const ep4_t p, const bn_t k, const ep4_t q,
 	ep4_t t0[1 << (RLC_WIDTH / 2)];
 	ep4_t t1[1 << (RLC_WIDTH / 2)];
 	ep4_t t[1 << RLC_WIDTH];
-	bn_t n;
+	bn_t n, _k, _m;
 	size_t l0, l1, w = RLC_WIDTH / 2;
 	uint8_t w0[2 * RLC_FP_BITS], w1[2 * RLC_FP_BITS];
 
 	bn_null(n);
+	bn_null(_k);
+	bn_null(_m);
 
 	if (bn_is_zero(k) || ep4_is_infty(p)) {
 		ep4_mul(r, q, m);
@@ -211,8 +213,13 @@ void ep4_mul_sim_trick(ep4_t r, const ep4_t p, const bn_t k, const ep4_t q,
 
 	RLC_TRY {
 		bn_new(n);
+		bn_new(_k);
+		bn_new(_m);
 
+		/* The recoding buffers only cover twice the field size. */
 		ep4_curve_get_ord(n);
+		bn_mod(_k, k, n);
+		bn_mod(_m, m, n);
 
 		for (int i = 0; i < (1 << w); i++) {
 			ep4_null(t0[i]);
@@ -227,18 +234,12 @@ void ep4_mul_sim_trick(ep4_t r, const ep4_t p, const bn_t k, const ep4_t q,
 
 		ep4_set_infty(t0[0]);
 		ep4_copy(t0[1], p);
-		if (bn_sign(k) == RLC_NEG) {
-			ep4_neg(t0[1], t0[1]);
-		}
 		for (int i = 2; i < (1 << w); i++) {
 			ep4_add(t0[i], t0[i - 1], t0[1]);
 		}
 
 		ep4_set_infty(t1[0]);
 		ep4_copy(t1[1], q);
-		if (bn_sign(m) == RLC_NEG) {
-			ep4_neg(t1[1], t1[1]);
-		}
 		for (int i = 1; i < (1 << w); i++) {
 			ep4_add(t1[i], t1[i - 1], t1[1]);
 		}
@@ -254,8 +255,8 @@ void ep4_mul_sim_trick(ep4_t r, const ep4_t p, const bn_t k, const ep4_t q,
 #endif
 
 		l0 = l1 = RLC_CEIL(2 * RLC_FP_BITS, w);
-		bn_rec_win(w0, &l0, k, w);
-		bn_rec_win(w1, &l1, m, w);
+		bn_rec_win(w0, &l0, _k, w);
+		bn_rec_win(w1, &l1, _m, w);
 
 		ep4_set_infty(r);
 		for (int i = RLC_MAX(l0, l1) - 1; i >= 0; i--) {
@@ -270,6 +271,8 @@ void ep4_mul_sim_trick(ep4_t r, const ep4_t p, const bn_t k, const ep4_t q,
 	}
 	RLC_FINALLY {
 		bn_free(n);
+		bn_free(_k);
+		bn_free(_m);
 		for (int i = 0; i < (1 << w); i++) {
 			ep4_free(t0[i]);
 			ep4_free(t1[i]);
